@@ -1300,14 +1300,17 @@ structure Inv (p : Parser) : Prop where
   initAct : ∀ l ∈ p.links, ∀ n, l.kind = .initArg n →
     (∃ a ∈ p.actions, a.kind.isSubT = true ∧ a.dest = l.target.take n) ∨ (⟨l.target.take n, .link⟩ : Action) ∈ p.actions
   dests : ∀ a ∈ p.actions, a.dest ≠ []
+  linkActs : ∀ a ∈ p.actions, a.kind = .link → ∃ l ∈ p.links, l.target = a.dest
 
-theorem Inv.init (p : Parser) (h : p.links = []) (hd : ∀ a ∈ p.actions, a.dest ≠ []) : Inv p :=
+theorem Inv.init (p : Parser) (h : p.links = []) (hd : ∀ a ∈ p.actions, a.dest ≠ [])
+    (hl : ∀ a ∈ p.actions, a.kind ≠ .link) : Inv p :=
   { noChain := by rw [h]; exact List.Pairwise.nil
     wf := by rw [h]; intro l hl; cases hl
     notReq := by rw [h]; intro l hl; cases hl
     plainAct := by rw [h]; intro l hl; cases hl
     initAct := by rw [h]; intro l hl; cases hl
-    dests := hd }
+    dests := hd
+    linkActs := fun a ha hk => absurd hk (hl a ha) }
 
 theorem take_of_append (d r : Key) : (d ++ r).take d.length = d := by simp
 
@@ -1341,7 +1344,7 @@ theorem Inv.step (p p' : Parser) (srcs : List Key) (co : List Bool) (t : Key) (f
     have : t ∈ existingSources p := by
       unfold existingSources; exact List.mem_flatMap.mpr ⟨l, hl, hm⟩
     simp [List.contains_eq_mem, this] at hTS
-  refine ⟨?_, ?_, ?_, ?_, ?_, ?_⟩
+  refine ⟨?_, ?_, ?_, ?_, ?_, ?_, ?_⟩
   · -- no chains
     simp only []
     rw [List.pairwise_append]
@@ -1430,6 +1433,18 @@ theorem Inv.step (p p' : Parser) (srcs : List Key) (co : List Bool) (t : Key) (f
       · rw [e]; exact htne
       · exact hi.dests a h'
     · exact hi.dests a ha
+  · -- every link action is the target of a link
+    intro a ha hk
+    simp only [] at ha ⊢
+    have hold : ∀ x : Link, a ∈ p.actions → ∃ l ∈ p.links ++ [x], l.target = a.dest := by
+      intro x h'
+      obtain ⟨l, hl, e⟩ := hi.linkActs a h' hk
+      exact ⟨l, List.mem_append_left _ hl, e⟩
+    split at ha
+    · rcases mem_of_mem_replaceAction ta _ a p.actions ha with e | h'
+      · exact ⟨_, List.mem_append_right _ List.mem_cons_self, by rw [e]⟩
+      · exact hold _ h'
+    · exact hold _ ha
 
 theorem Inv.steps : ∀ (reqs : List LinkReq) (p p' : Parser), Inv p → addLinks p reqs = .ok p' → Inv p'
   | [], p, p', hi, h => by simp only [addLinks] at h; cases h; exact hi
@@ -1446,9 +1461,10 @@ theorem Inv.steps : ∀ (reqs : List LinkReq) (p p' : Parser), Inv p → addLink
 /-- the keys a link set mentions -/
 def linkKeys (ls : List Link) : List Key := ls.flatMap (fun l => l.target :: l.sources.map (·.key))
 
-/-- no key of the link set is a proper dotted prefix of another one (open finding C15-nested-chain is the complement) -/
+/-- no target is a proper dotted prefix or extension of another key of the link set (open finding C15-nested-chain
+    is the complement) -/
 def nonNested (ls : List Link) : Bool :=
-  (linkKeys ls).all fun k => (linkKeys ls).all fun k' => k == k' || diverges k k'
+  ls.all fun l => (linkKeys ls).all fun k => l.target == k || diverges l.target k
 
 /-- no link has its target among its own sources (open finding C15-self-link is the complement) -/
 def noSelf (ls : List Link) : Bool := ls.all fun l => !(l.sources.map (·.key)).contains l.target
@@ -1476,18 +1492,18 @@ theorem mem_linkKeys_source {ls : List Link} {l : Link} {s : Src} (h : l ∈ ls)
     s.key ∈ linkKeys ls :=
   List.mem_flatMap.mpr ⟨l, h, List.mem_cons_of_mem _ (List.mem_map.mpr ⟨s, hs, rfl⟩)⟩
 
-theorem nonNested_spec {ls : List Link} (h : nonNested ls = true) {k k' : Key} (hk : k ∈ linkKeys ls)
-    (hk' : k' ∈ linkKeys ls) : k = k' ∨ diverges k k' = true := by
+theorem nonNested_spec {ls : List Link} (h : nonNested ls = true) {l : Link} {k : Key} (hl : l ∈ ls)
+    (hk : k ∈ linkKeys ls) : l.target = k ∨ diverges l.target k = true := by
   unfold nonNested at h
   simp only [List.all_eq_true, Bool.or_eq_true, beq_iff_eq] at h
-  exact h k hk k' hk'
+  exact h l hl k hk
 
 /-- an accepted link set without self link and without nested keys is independent -/
 theorem indep_of_unchained (ls : List Link) (hu : ls.Pairwise Unchained) (hs : noSelf ls = true)
     (hn : nonNested ls = true) : SrcIndep ls ∧ TgtIndep ls := by
   constructor
   · intro l hl l' hl' s hs'
-    rcases nonNested_spec hn (mem_linkKeys_target hl) (mem_linkKeys_source hl' hs') with e | hd
+    rcases nonNested_spec hn hl (mem_linkKeys_source hl' hs') with e | hd
     · exfalso
       by_cases el : l = l'
       · subst el
@@ -1500,7 +1516,7 @@ theorem indep_of_unchained (ls : List Link) (hu : ls.Pairwise Unchained) (hs : n
   · unfold TgtIndep
     refine List.Pairwise.imp_of_mem ?_ hu
     intro a b ha hb hab
-    rcases nonNested_spec hn (mem_linkKeys_target ha) (mem_linkKeys_target hb) with e | hd
+    rcases nonNested_spec hn ha (mem_linkKeys_target hb) with e | hd
     · exact absurd e hab.1
     · exact hd
 
@@ -1646,6 +1662,27 @@ theorem covered (p : Parser) (hi : Inv p) : ∀ l ∈ p.links, ∃ t ∈ stripKe
       simp
     · exact ⟨l.target.take n, hlink _ hm, hi.dests _ hm, l.target.drop n, (List.take_append_drop n _).symm⟩
 
+/-- … and nothing else is deleted -/
+theorem stripKeys_targets (p : Parser) (hi : Inv p) : ∀ t ∈ stripKeys p, ∃ l ∈ p.links, l.target = t := by
+  intro t ht
+  unfold stripKeys at ht
+  rcases List.mem_append.mp ht with h1 | h1
+  · obtain ⟨a, ha, hd⟩ := List.mem_map.mp h1
+    obtain ⟨ha1, ha2⟩ := List.mem_filter.mp ha
+    obtain ⟨l, hl, e⟩ := hi.linkActs a ha1 (by simpa using ha2)
+    exact ⟨l, hl, by rw [e, hd]⟩
+  · obtain ⟨a, _, hm⟩ := List.mem_flatMap.mp h1
+    obtain ⟨l, hl, e⟩ := List.mem_map.mp hm
+    exact ⟨l, (List.mem_filter.mp hl).1, e⟩
+
+/-- the strip leaves every key that diverges from the link targets as it is -/
+theorem getK_strip_frame (p : Parser) (hi : Inv p) (cfg : KV) (k : Key)
+    (hk : ∀ l ∈ p.links, diverges l.target k = true) : getK k (stripLinkTargetKeys p cfg) = getK k cfg := by
+  apply getK_delKeys_frame
+  intro t ht
+  obtain ⟨l, hl, e⟩ := stripKeys_targets p hi t ht
+  rw [← e]; exact hk l hl
+
 /-- the path of a link target cannot be read after the strip -/
 theorem getK_strip_target (p : Parser) (hi : Inv p) (cfg : KV) : ∀ l ∈ p.links,
     getK l.target (stripLinkTargetKeys p cfg) = .none := by
@@ -1787,5 +1824,100 @@ theorem delKey_eq_delK : ∀ (k : Key) (kvs : KV), uniqKV kvs → delKey k kvs =
       | lst _ => rfl
       | tup _ => rfl
       | dct _ => rfl
+
+/-! ### ordinary sources are present after a successful pass; re-parse; order -/
+
+theorem readSources_present (E : Env) (cfg : KV) : ∀ (srcs : List Src), (∀ s ∈ srcs, s.sub = false) →
+    (∀ e, readSources E cfg srcs ≠ .error e) → ∃ args, argsOf cfg srcs = some args
+  | [], _, _ => ⟨[], rfl⟩
+  | s :: r, hsub, hne => by
+    simp only [readSources] at hne
+    cases hg : getK s.key cfg with
+    | none =>
+      simp only [hg, hsub s List.mem_cons_self] at hne
+      exact absurd rfl (hne .missingSource)
+    | some v =>
+      simp only [hg] at hne
+      have hr : ∀ e, readSources E cfg r ≠ .error e := by
+        intro e he
+        apply hne e
+        by_cases hc : E.chk s.key v = true
+        · simp [hc, he]
+        · simp at hc
+          simp [hc] at hne
+      obtain ⟨args, ha⟩ := readSources_present E cfg r (fun x hx => hsub x (List.mem_cons_of_mem _ hx)) hr
+      exact ⟨coerceArg s v :: args, by simp [argsOf, hg, ha]⟩
+
+theorem linkOk_present (E : Env) (l : Link) (cfg : KV) (h : linkOk E l cfg = true)
+    (hsub : ∀ s ∈ l.sources, s.sub = false) : ∃ args, argsOf cfg l.sources = some args := by
+  apply readSources_present E cfg l.sources hsub
+  intro e he
+  unfold linkOk at h
+  rw [he] at h
+  cases h
+
+/-- the link step of a re-parse: started from any namespace `d` that agrees with the parsed configuration off the
+    link targets, the pass succeeds and rebuilds the targets -/
+theorem reparse_links (E : Env) (ls : List Link) (cfg0 cfg d : KV)
+    (h : applyParsingLinks E ls cfg0 = .ok cfg) (hST : SrcIndep ls) (hTT : TgtIndep ls)
+    (hload : ∀ k, (∀ l ∈ ls, diverges l.target k = true) → getK k d = getK k cfg) :
+    ∃ cfg2, applyParsingLinks E ls d = .ok cfg2 ∧
+      (∀ k, (∀ l ∈ ls, diverges l.target k = true) → getK k cfg2 = getK k cfg) ∧
+      (∀ l ∈ ls, ∀ args, argsOf cfg l.sources = some args → ∃ v, linkValue E l args = .ok v ∧
+        (∀ w ∈ targetValues l cfg, w = v) ∧ (∀ w ∈ targetValues l cfg2, w = v) ∧
+        (l.kind = .plain → l.target ≠ [] → getK l.target cfg2 = getK l.target cfg)) := by
+  have hsrc0 := apply_sources_stable E ls cfg0 cfg h hST hTT
+  have hsrcd : ∀ l ∈ ls, ∀ s ∈ l.sources, getK s.key d = getK s.key cfg0 := by
+    intro l hl s hs
+    rw [hload s.key (fun x hx => hST x hx l hl s hs), hsrc0 l hl s hs]
+  have hok : ∀ l ∈ ls, linkOk E l d = true := by
+    intro l hl
+    rw [linkOk_congr E l d cfg0 (hsrcd l hl)]
+    exact apply_each_ok E ls cfg0 cfg h hST l hl
+  obtain ⟨cfg2, h2⟩ := apply_ok_of_each E ls d hST hok
+  have inv1 := apply_inv E ls cfg0 cfg h hST hTT
+  have inv2 := apply_inv E ls d cfg2 h2 hST hTT
+  refine ⟨cfg2, h2, fun k hk => by rw [inv2.1 k hk, hload k hk], ?_⟩
+  intro l hl args ha
+  have ha0 : argsOf cfg0 l.sources = some args := by
+    rw [← argsOf_congr cfg cfg0 l.sources (hsrc0 l hl)]; exact ha
+  have had : argsOf d l.sources = some args := by
+    rw [argsOf_congr d cfg0 l.sources (hsrcd l hl)]; exact ha0
+  obtain ⟨v, hv, hw1⟩ := apply_inv_all E ls cfg0 cfg h hST hTT l hl args ha0
+  obtain ⟨v2, hv2, hw2⟩ := apply_inv_all E ls d cfg2 h2 hST hTT l hl args had
+  rw [hv] at hv2; cases hv2
+  obtain ⟨v3, hv3, _, hp1⟩ := inv1.2 l hl args ha0
+  rw [hv] at hv3; cases hv3
+  obtain ⟨v4, hv4, _, hp2⟩ := inv2.2 l hl args had
+  rw [hv] at hv4; cases hv4
+  exact ⟨v, hv, hw1, hw2, fun hk hne => by rw [hp1 hk hne, hp2 hk hne]⟩
+
+/-- the pass in any other order succeeds as well and obeys the same equations -/
+theorem apply_perm (E : Env) (ls ls' : List Link) (cfg c1 : KV) (hp : ls'.Perm ls)
+    (h : applyParsingLinks E ls cfg = .ok c1) (hST : SrcIndep ls) (hTT : TgtIndep ls) :
+    ∃ c2, applyParsingLinks E ls' cfg = .ok c2 ∧
+      (∀ k, (∀ l ∈ ls, diverges l.target k = true) → getK k c2 = getK k c1) ∧
+      (∀ l ∈ ls, ∀ args, argsOf cfg l.sources = some args → ∃ v, linkValue E l args = .ok v ∧
+        (∀ w ∈ targetValues l c1, w = v) ∧ (∀ w ∈ targetValues l c2, w = v) ∧
+        (l.kind = .plain → l.target ≠ [] → getK l.target c2 = getK l.target c1)) := by
+  have hST' := SrcIndep.perm hp hST
+  have hTT' := TgtIndep.perm hp hTT
+  have hok : ∀ l ∈ ls', linkOk E l cfg = true :=
+    fun l hl => apply_each_ok E ls cfg c1 h hST l (hp.mem_iff.mp hl)
+  obtain ⟨c2, h2⟩ := apply_ok_of_each E ls' cfg hST' hok
+  have inv1 := apply_inv E ls cfg c1 h hST hTT
+  have inv2 := apply_inv E ls' cfg c2 h2 hST' hTT'
+  refine ⟨c2, h2, fun k hk => ?_, ?_⟩
+  · rw [inv1.1 k hk, inv2.1 k (fun l hl => hk l (hp.mem_iff.mp hl))]
+  · intro l hl args ha
+    have hl' := hp.mem_iff.mpr hl
+    obtain ⟨v, hv, hw1⟩ := apply_inv_all E ls cfg c1 h hST hTT l hl args ha
+    obtain ⟨v2, hv2, hw2⟩ := apply_inv_all E ls' cfg c2 h2 hST' hTT' l hl' args ha
+    rw [hv] at hv2; cases hv2
+    obtain ⟨v3, hv3, _, hp1⟩ := inv1.2 l hl args ha
+    rw [hv] at hv3; cases hv3
+    obtain ⟨v4, hv4, _, hp2⟩ := inv2.2 l hl' args ha
+    rw [hv] at hv4; cases hv4
+    exact ⟨v, hv, hw1, hw2, fun hk hne => by rw [hp1 hk hne, hp2 hk hne]⟩
 
 end Jap.Links
